@@ -162,6 +162,25 @@ func (x *wrkExec) do(g string, op WOp) {
 }
 
 func genWrkScenario(rng *rand.Rand, profile, mode string) any {
+	if profile == "stress" {
+		// free-running only: long programs of back-to-back calls with small, changing counts and nothing gated: workers are
+		// spawned and retire thousands of times under real contention
+		sc := &WScenario{Profile: profile}
+		id := 0
+		for d, nd := 0, 3+rng.Intn(2); d < nd; d++ {
+			var ops []WOp
+			for i, n := 0, 60+rng.Intn(60); i < n; i++ {
+				id++
+				ops = append(ops, WOp{K: "call", ID: id, N: 1 + rng.Intn(3)})
+				if rng.Intn(25) == 0 {
+					ops = append(ops, WOp{K: "wait"})
+				}
+			}
+			sc.Drivers = append(sc.Drivers, ops)
+		}
+		sc.NIDs = id + 2
+		return sc
+	}
 	sc := &WScenario{Profile: profile}
 	nd, nops := 2+rng.Intn(3), 2+rng.Intn(3)
 	if mode != "c" {
